@@ -70,8 +70,7 @@ class SymH:
         return out
 
     def frac(self, a, b=1):
-        f = Fraction(a, b)
-        return int(f) if f.denominator == 1 else f
+        return Fraction(a, b)    # always a Fraction: int/int in harness code must never become a float
 
     def const(self, v):
         return symnp._ex(v)
@@ -144,8 +143,42 @@ class SymH:
     def mod(self, name):
         return self.session.mod(name)
 
+    def linear_map(self, fn, shape, complex_=True, name='f'):
+        """Kernel of a linear map: C[idx_in + idx_out] = coefficient of input sample idx_in in output sample idx_out.
+        fn is run ONCE on a fully symbolic input; (complex-)linearity itself is recorded as an obligation."""
+        f = self.carray(name, shape) if complex_ else self.rarray(name, shape)
+        if complex_:
+            f._declared_complex = True
+        out = symnp.asarray(fn(f))
+        oshape = out.shape
+        C = _np.empty(tuple(shape) + tuple(oshape), dtype=object)
+        zero = Sx.const(0, self.ctx)
+        resid = _np.empty(oshape, dtype=object)
+        lin_l, lin_r = [], []
+        for oidx in _np.ndindex(*oshape):
+            v = symnp._sx(out[oidx])
+            rest = v
+            for iidx in _np.ndindex(*shape):
+                tag = '_'.join(map(str, iidx))
+                an = ('%sr_%s' % (name, tag)) if complex_ else ('%s_%s' % (name, tag))
+                co = poly_coeffs(v, an) if an in self.ctx.content_names else {}
+                c1 = co.get(1, zero)
+                C[iidx + oidx] = c1
+                rest = rest - c1 * self.content(an)
+                if complex_:
+                    bn = '%si_%s' % (name, tag)
+                    cb = poly_coeffs(v, bn).get(1, zero) if bn in self.ctx.content_names else zero
+                    lin_l.append(cb)
+                    lin_r.append(c1 * self.j)
+                    rest = rest - cb * self.content(bn)
+            resid[oidx] = rest
+        self.eq('linear: no constant/higher-order part', resid.view(symnp.SymArray), 0 * resid)
+        if complex_ and lin_l:
+            self.eq('linear: complex-linear', symnp.asarray(lin_l), symnp.asarray(lin_r))
+        return C.view(symnp.SymArray)
+
     # -- obligations --------------------------------------------------------------------------
-    def eq(self, label, a, b, scale=None):
+    def eq(self, label, a, b, scale=None, rtol=None):
         a = symnp.asarray(a) if isinstance(a, (_np.ndarray, list, tuple)) else a
         b = symnp.asarray(b) if isinstance(b, (_np.ndarray, list, tuple)) else b
         sa, sb = _np.shape(a), _np.shape(b)
